@@ -6,4 +6,4 @@ T=$(mktemp -d /tmp/icemut.XXXXXX)
 trap 'rm -rf $T' EXIT
 rsync -a --exclude .git ${VERIF_REPO:-/repo}/ $T/
 (cd $T && git apply --whitespace=nowarn $P) || { echo "patch does not apply"; exit 2; }
-/verif/bin/icecheck -property $ID -tier quick -repo $T -verif /verif -nocontrols -noevidence 2>&1 | grep -v "^  rule .* instances=" | head -${3:-40}
+${ICECHECK_BIN:-/verif/bin/icecheck} -property $ID -tier quick -repo $T -verif /verif -nocontrols -noevidence 2>&1 | grep -v "^  rule .* instances=" | head -${3:-40}
